@@ -55,6 +55,33 @@ func gen(t *rapid.T) Case {
 		o.MaxPts, o.MaxMembers, o.MaxDepth = rapid.IntRange(300, 1200).Draw(t, "maxptslong"), 3, 1 // members of hundreds of vertices
 	}
 	g := vkit.GenGJ(t, o)
+	if rapid.IntRange(0, 29).Draw(t, "deep") == 17 {
+		// collections nested 15 to 66 deep (next to 16, 32 and 64, the sizes at which a stack that is grown by doubling
+		// is moved), the nested collection followed by another member on most levels, vertices at the bottom and on the way
+		depth := rapid.SampledFrom([]int{16, 16, 32, 64}).Draw(t, "deepn") + rapid.IntRange(-1, 2).Draw(t, "deepoff")
+		inner := g
+		k := 0
+		pt := func() vkit.GJ {
+			k++
+			return vkit.GJ{T: "Point", Pts: []vkit.P2{vkit.MkP(float64(100+k), float64(-k))}}
+		}
+		for lvl := 0; lvl < depth; lvl++ {
+			gc := vkit.GJ{T: "GeometryCollection"}
+			if rapid.IntRange(0, 3).Draw(t, "deeplead") == 0 {
+				gc.Geoms = append(gc.Geoms, pt())
+			}
+			gc.Geoms = append(gc.Geoms, inner)
+			switch rapid.IntRange(0, 5).Draw(t, "deeptrail") {
+			case 0: // the nested collection is the last member
+			case 1:
+				gc.Geoms = append(gc.Geoms, vkit.GJ{T: "LineString"})
+			default:
+				gc.Geoms = append(gc.Geoms, pt())
+			}
+			inner = gc
+		}
+		g = inner
+	}
 	c.G = &g
 	return c
 }
